@@ -171,7 +171,25 @@ func (g *Gen) upperFamilies() {
 	}
 }
 
+// d15Witness: the recorded finding D15 (KNOWN_FINDINGS.jsonl): under FilteredApply a constant and a column
+// copy reach ALL rows, not only those matching the clause. Fixed inputs, no randomness; Opts 77 asks the
+// specification to judge these forms by the letter of C06 instead of leaving them unspecified.
+func (g *Gen) d15Witness() {
+	cl := Clause{K: "leaf", Col: toBS("A"), CmpK: "str", Cmp: ">", Arg: &Val{T: "int", I: 1}}
+	for _, in := range []Instr{
+		{Fn: FnRef{K: "const", V: &Val{T: "int", I: 5}}, Dst: toBS("X")},
+		{Fn: FnRef{K: "col", V: &Val{T: "col", S: toBS("S")}}, Dst: toBS("C")},
+	} {
+		g.begin("D15 witness: FilteredApply with " + in.Fn.K)
+		f := g.do(Step{Op: "New", Recv: -1, HasOrder: true, ColOrder: bsList([]string{"A", "S"}),
+			Data: []ColData{{Name: toBS("A"), Kind: "int", Ints: []int64{1, 2, 3}}, {Name: toBS("S"), Kind: "string", Strs: []*BS{bsp("x"), bsp("y"), bsp("z")}}}})
+		g.do(Step{Op: "FilteredApply", Recv: f, Clause: &cl, Instrs: []Instr{in}, Opts: []int{77}})
+		g.end()
+	}
+}
+
 func genC06(g *Gen) {
+	g.d15Witness()
 	g.upperFamilies()
 	g.arrangedFrames("apply arranged", func(f int) {
 		in := func(k, sym, dst, s1, s2 string) Instr {
